@@ -3,6 +3,7 @@ package main
 import (
 	"fmt"
 	"go/token"
+	"go/types"
 	"regexp"
 	"strings"
 
@@ -20,14 +21,29 @@ func assumeEq(idx int, c string) func(st *State) {
 }
 
 func ruleCfgAddr(c *Ctx, rule string) {
-	fn := c.P.Func("config", "*Config", "getListenAddress")
+	fn := funcByName(c.P, "config", "getListenAddress") // method or plain function
 	if fn == nil {
-		c.R.Fatalf("ANCHOR-UNRESOLVED: config.(*Config).getListenAddress")
+		c.R.Fatalf("ANCHOR-UNRESOLVED: config.getListenAddress")
 		return
 	}
 	c.R.Functions[shortFn(fn)] = true
+	// parameters by type: the address text and the protocol version
+	ai, vi := -1, -1
+	for i, p := range fn.Params {
+		if b, ok := p.Type().Underlying().(*types.Basic); ok && b.Kind() == types.String && ai < 0 {
+			ai = i
+		}
+		if namedOf(p.Type()) == modPath+"/config.protocolVersion" {
+			vi = i
+		}
+	}
+	if ai < 0 || vi < 0 {
+		c.R.Fatalf("ANCHOR-UNRESOLVED: config.getListenAddress(addr string, ver protocolVersion)")
+		return
+	}
+	pa, pv := fmt.Sprintf(`\$%d`, ai), fmt.Sprintf(`\$%d`, vi)
 	// the version parameter only ever receives 4 and 6
-	consts, ok := paramConsts(c.P, fn, 2, 0, map[string]bool{})
+	consts, ok := paramConsts(c.P, fn, vi, 0, map[string]bool{})
 	if !ok || len(consts) != 2 || !consts["4"] || !consts["6"] {
 		c.R.bad(rule, "getListenAddress ver ∈ {4,6}", c.P.Pos(fn.Pos()), shortFn(fn), fmt.Sprintf("the protocol version parameter does not receive exactly the constants 4 and 6 over all call chains (%v)", consts))
 	} else {
@@ -35,10 +51,10 @@ func ruleCfgAddr(c *Ctx, rule string) {
 	}
 	wantPort := map[string]string{"4": c.P.mustConst(c.R, pkgDHCP4, "ServerPort"), "6": c.P.mustConst(c.R, pkgDHCP6, "DefaultServerPort")}
 	wantIP := map[string]string{"4": "net.IPv4zero", "6": "net.IPv6unspecified"}
-	split := `github\.com/coredhcp/coredhcp/config\.splitHostPort(@(?:[\w$]+·)?t\d+)?\(\$1\)`
+	split := `github\.com/coredhcp/coredhcp/config\.splitHostPort(@(?:[\w$]+·)?t\d+)?\(` + pa + `\)`
 	for _, ver := range []string{"4", "6"} {
 		ex := NewExplorer(c.P, c.Pure, fn)
-		ex.Hooks.Assume = assumeEq(2, ver)
+		ex.Hooks.Assume = assumeEq(vi, ver)
 		var bad []string
 		addb := func(s string) {
 			if len(bad) < 5 {
@@ -58,7 +74,7 @@ func ruleCfgAddr(c *Ctx, rule string) {
 			to4Nil, _ := histFact(st, "nil", regexp.MustCompile(`^\(net\.IP\)\.To4\(net\.ParseIP\(`+split+`#0\)\)$`))
 			atoiOK, _ := histFact(st, "nil", regexp.MustCompile(`^strconv\.Atoi\(`+split+`#2\)#1$`))
 			errN, _ := ex.NilState(st, ret.Results[1])
-			if v, _ := histFact(st, "nil", regexp.MustCompile(`protoVersionCheck(@(?:[\w$]+·)?t\d+)?\(\$2\)$`)); v == 0 {
+			if v, _ := histFact(st, "nil", regexp.MustCompile(`protoVersionCheck(@(?:[\w$]+·)?t\d+)?\(`+pv+`\)$`)); v == 0 {
 				return // version sanity check (dead for ver ∈ {4,6})
 			}
 			desc := fmt.Sprintf("ver=%s host-empty=%s port-empty=%s split-ok=%s parse-nil=%s to4-nil=%s atoi-ok=%s", ver, tri(hostEmpty), tri(portEmpty), tri(splitOK), tri(parseNil), tri(to4Nil), tri(atoiOK))
@@ -156,7 +172,6 @@ func ruleCfgListen(c *Ctx, rule string) {
 		return
 	}
 	c.R.Functions[shortFn(fn)] = true
-	info := InfoOf(fn)
 	getRe := func(key string) *regexp.Regexp {
 		return regexp.MustCompile(`^\(\*github\.com/spf13/viper\.Viper\)\.Get@(?:[\w$]+·)?t\d+\(\$0\.v,fmt\.Sprintf\("server%d\.` + key + `",`)
 	}
@@ -175,27 +190,34 @@ func ruleCfgListen(c *Ctx, rule string) {
 	}
 	var appends []*ssa.Call
 	var glaCall *ssa.Call
-	for _, b := range fn.Blocks {
-		for _, in := range b.Instrs {
-			if call, ok := in.(*ssa.Call); ok {
-				if bi, ok := call.Call.Value.(*ssa.Builtin); ok && bi.Name() == "append" {
-					appends = append(appends, call)
-				}
-				if f := call.Call.StaticCallee(); f != nil && f.Name() == "getListenAddress" {
-					glaCall = call
-				}
+	eachInstr(fn, func(in ssa.Instruction) {
+		if call, ok := in.(*ssa.Call); ok {
+			if bi, ok := call.Call.Value.(*ssa.Builtin); ok && bi.Name() == "append" {
+				appends = append(appends, call)
+			}
+			if f := call.Call.StaticCallee(); f != nil && f.Name() == "getListenAddress" {
+				glaCall = call
 			}
 		}
-	}
-	hdr := -1
+	})
+	var hdrBlk *ssa.BasicBlock
+	glaAddr, glaVer := -1, -1
 	if glaCall != nil {
-		for h, body := range info.LoopOf {
+		for h, body := range InfoOf(glaCall.Parent()).LoopOf {
 			if body[glaCall.Block().Index] {
-				hdr = h
+				hdrBlk = glaCall.Parent().Blocks[h]
+			}
+		}
+		for i, p := range glaCall.Call.StaticCallee().Params {
+			if b, ok := p.Type().Underlying().(*types.Basic); ok && b.Kind() == types.String && glaAddr < 0 {
+				glaAddr = i
+			}
+			if namedOf(p.Type()) == modPath+"/config.protocolVersion" {
+				glaVer = i
 			}
 		}
 	}
-	if glaCall == nil || hdr < 0 {
+	if glaCall == nil || hdrBlk == nil || glaAddr < 0 || glaVer < 0 {
 		c.R.bad(rule, "parseListen address loop", c.P.Pos(fn.Pos()), shortFn(fn), "no loop calling getListenAddress per configured address")
 		return
 	}
@@ -219,16 +241,16 @@ func ruleCfgListen(c *Ctx, rule string) {
 			return
 		}
 		// the address handed over is an element of the configured list (or of the one-element alias list)
-		a := ex.Canon(st, glaCall.Call.Args[1]).S
+		a := ex.Canon(st, glaCall.Call.Args[glaAddr]).S
 		if !regexp.MustCompile(`\[` + idxRe + `\]$`).MatchString(a) {
 			addb("getListenAddress is not applied to the ranged element of the address list: " + shortName(a))
 		}
-		if ex.Canon(st, glaCall.Call.Args[2]).S != "$1" {
+		if ex.Canon(st, glaCall.Call.Args[glaVer]).S != "$1" {
 			addb("getListenAddress is called with a protocol version other than parseListen's")
 		}
 	}
 	ex.Hooks.BackEdge = func(st *State, from, header *ssa.BasicBlock) {
-		if header.Index != hdr {
+		if header != hdrBlk {
 			return
 		}
 		iters++
@@ -267,7 +289,7 @@ func ruleCfgListen(c *Ctx, rule string) {
 		case isDefault:
 			nDefault++
 			if ifaceNN != 0 || listenNN != 0 {
-				addb("defaults are used although `listen` or `interface` is configured")
+				addb(fmt.Sprintf("defaults are used although `listen` or `interface` is configured (interface-set=%s listen-set=%s; decided: %s)", tri(ifaceNN), tri(listenNN), strings.Join(shortAll(st.HistStrings()), " ∧ ")))
 			}
 		case errN == 1:
 			nList++
@@ -282,19 +304,17 @@ func ruleCfgListen(c *Ctx, rule string) {
 	ex.Run()
 	// the interface alias: "%" + cast.ToString(interface)
 	aliasOK := false
-	for _, b := range fn.Blocks {
-		for _, in := range b.Instrs {
-			if bo, ok := in.(*ssa.BinOp); ok && bo.Op.String() == "+" {
-				if k, ok := bo.X.(*ssa.Const); ok && constStr(k) == `"%"` {
-					if call, ok := bo.Y.(*ssa.Call); ok {
-						if f := call.Call.StaticCallee(); f != nil && f.String() == "github.com/spf13/cast.ToString" {
-							aliasOK = true
-						}
+	eachInstr(fn, func(in ssa.Instruction) {
+		if bo, ok := in.(*ssa.BinOp); ok && bo.Op.String() == "+" {
+			if k, ok := bo.X.(*ssa.Const); ok && constStr(k) == `"%"` {
+				if call, ok := bo.Y.(*ssa.Call); ok {
+					if f := call.Call.StaticCallee(); f != nil && f.String() == "github.com/spf13/cast.ToString" {
+						aliasOK = true
 					}
 				}
 			}
 		}
-	}
+	})
 	if !aliasOK {
 		addb("`interface: X` is not turned into the listen address \"%X\"")
 	}
@@ -475,4 +495,20 @@ func ruleCfgPlugins(c *Ctx, rule string) {
 			c.R.ok(rule, "parseConfig", c.P.Pos(pc.Pos()), shortFn(pc), "a present section of version v is stored as ServerV{Plugins: getPlugins(v), Addresses: parseListen(v)}")
 		}
 	}
+}
+
+// funcByName finds the first-party function or method called name in the
+// package whose path ends in pkgSuffix (receivers are not part of an anchor:
+// turning an unused-receiver method into a function keeps the anchor).
+func funcByName(p *Program, pkgSuffix, name string) *ssa.Function {
+	var found *ssa.Function
+	for _, fn := range p.SrcFuncs() {
+		if fn.Name() == name && fn.Parent() == nil && strings.HasSuffix(fnPkgPath(fn), "/"+pkgSuffix) {
+			if found != nil {
+				return nil // ambiguous
+			}
+			found = fn
+		}
+	}
+	return found
 }
